@@ -4,8 +4,8 @@ CONSTANTS
   SegCap = 2
   FixStale = TRUE
   MaxSets = 4
-  MaxOps = 8
-  MaxFails = 1
+  MaxOps = 7
+  MaxFails = 2
   MaxFaults = 2
   UseKeys = {"k1", "k2", "k3"}
   UseClients = {"c1", "c2"}
